@@ -407,12 +407,21 @@ def run_fm(ctx, pool):
 
 
 # ------------------------------------------------------------------------------------------------ triggers / pools for (c)
+# GFM: a task list item marker is `[ ]`/`[x]`/`[X]` at the very start of the FIRST paragraph of a list item: textually, directly after
+# the list marker(s) on the item's first line, or on the line after a bare list marker.  `[ ]` anywhere else is ordinary text.
+_LM = r"(?:[-+*]|\d{1,9}[.)])"
+TASK_TRIG = re.compile(r"(?m)^[ \t>]*(?:%s[ \t]+)+\[[ xX]\]|^[ \t>]*(?:%s[ \t]*)+\n[ \t>]*\[[ xX]\]" % (_LM, _LM))
+# checkbox-looking text that is NOT in the first block of an item: enabling the extension must change nothing
+TASK_NOT_FIRST = ["- a\n- b\n\n  [ ] c\n", "- a\n\n  [ ] c\n", "- a\n- b\n  [ ] c\n", "- a\n  - b\n\n    [x] c\n", "> - a\n> - b\n>\n>   [ ] c\n",
+                  "- a\n- b\n\n  [ ] c\n- d\n\n  [X] e\n", "1. a\n2. b\n\n   [ ] c\n", "1. a\n1. b\n1. c\n\n   [x] d\n", "- a\n\n[ ] c\n",
+                  "- a\n- b\n\n  # h\n\n  [ ] c\n", "* a\n* b\n\n  [X] c\n\n  [ ] d\n", "+ a\n+ b\n\n  > [ ] c\n", "- a\n- b\n\n  [ ] c", "a\n[ ] b\n",
+                  "- a\n- b\n- c\n\n  [ ] d\n\n  e\n", "- a\n  b\n- c\n  d\n\n  [x] e\n"]
 DISALLOWED = ["title", "textarea", "style", "xmp", "iframe", "noembed", "noframes", "script", "plaintext"]
 TRIG = [
     lambda d: d.split("\n")[0].rstrip(WS) == "---",                                      # front matter: `---` at the top
     lambda d: re.search(r"<!---?\s*pyml", d, re.I) is not None,                           # pragmas
     lambda d: re.search(r"<\s*/?\s*(%s)" % "|".join(DISALLOWED), d, re.I) is not None,    # disallowed raw html
-    lambda d: re.search(r"\[[ xX]\]", d) is not None,                                     # task list items
+    lambda d: TASK_TRIG.search(d) is not None,                                            # task list items
     lambda d: "~" in d,                                                                   # strikethrough
     lambda d: re.search(r"www\.|https?://|@|mailto:|xmpp:", d) is not None,               # extended autolinks
 ]
@@ -467,6 +476,8 @@ def inert_space():
         add(a + "\n" + b + "\n")
     for a, b in itertools.product(EXT_LINES, PLAIN_LINES):
         add(a + "\n" + b + "\n"); add(b + "\n" + a + "\n"); add(b + "\n" + a)
+    for d in TASK_NOT_FIRST:
+        add(d)
     for a in EXT_LINES:
         add("---\nk: v\n---\n" + a + "\n")
         add("- [ ] " + a + "\n")
@@ -751,7 +762,7 @@ def run(ctx):
         extra = [d for d in docs.repo_sources() if len(d) < 1500] + [t for _, t in docs.rule_resources() if len(t) < 1500]
         n_inert_space = len(pool_docs) + len(extra)
         if ctx.quick():
-            singles = [l for l in EXT_LINES] + [l + "\n" for l in ACTING_LINES]
+            singles = [l for l in EXT_LINES] + [l + "\n" for l in ACTING_LINES] + TASK_NOT_FIRST
             pool_docs = singles + docs.sample(ctx.rng, pool_docs, 400) + docs.sample(ctx.rng, extra, 80)
         else:
             pool_docs = pool_docs + extra
